@@ -387,3 +387,122 @@ Theorem huge_length_refuted :
   third_element real_alloc false (91 :: ff8) = Panic /\
   read_bounded_bytes real_alloc (91 :: ff8) = Panic.
 Proof. repeat split; vm_compute; reflexivity. Qed.
+
+(* ------------------------------------------------------------------ the real allocator only ever adds panics *)
+(* [refines r' r]: r' is r, or r' is a Panic.  With [lim = Some l] every decoder refines its [lim = None] version: the
+   allocation of a declared length is the ONLY panic of the current code's models (all of which are total at None). *)
+Definition refines {A} (r' r : result A) : Prop := r' = r \/ r' = Panic.
+
+Lemma refines_refl {A} (r : result A) : refines r r.  Proof. left. reflexivity. Qed.
+Lemma refines_bind {A B} (r' r : result A) (f' f : A -> result B) :
+  refines r' r -> (forall a, refines (f' a) (f a)) -> refines (bind r' f') (bind r f).
+Proof.
+  intros [H|H] Hf; rewrite H; [|right; reflexivity]. destruct r as [a| | |]; cbn [bind]; [apply Hf| | |]; apply refines_refl.
+Qed.
+Lemma refines_total {A} (r' r : result A) : refines r' r -> normal r -> r' <> Panic -> normal r'.
+Proof. intros [H|H] Hn Hp; [rewrite H; exact Hn|contradiction]. Qed.
+
+Ltac rstep :=
+  match goal with
+  | |- refines ?x ?x => apply refines_refl
+  | |- refines (bind _ _) (bind _ _) => apply refines_bind; [|intro]
+  | |- refines (match ?x with _ => _ end) (match ?x with _ => _ end) => destruct x
+  | |- refines (if ?b then _ else _) (if ?b then _ else _) => destruct b
+  end.
+
+Lemma ce_bytes_refines l bs : refines (ce_bytes (Some l) bs) (ce_bytes None bs).
+Proof.
+  unfold ce_bytes. apply refines_bind; [apply refines_refl|]. intros [[n|] r]; [|apply refines_refl].
+  cbn [alloc_lim]. destruct (n <=? l); cbn [bind]; [apply refines_refl|right; reflexivity].
+Qed.
+
+Lemma raw_with_crc32_refines l legacy bs : refines (raw_with_crc32 (Some l) legacy bs) (raw_with_crc32 None legacy bs).
+Proof.
+  unfold raw_with_crc32. apply refines_bind; [apply refines_refl|]. intros [len r].
+  apply refines_bind; [apply refines_refl|]. intros _.
+  apply refines_bind; [apply refines_refl|]. intros [t r1]. destruct (negb _); [apply refines_refl|].
+  apply refines_bind; [apply ce_bytes_refines|]. intros [b r2]. apply refines_refl.
+Qed.
+
+Lemma attrs_loop_refines l : forall k bs dp magic, refines (attrs_loop (Some l) k bs dp magic) (attrs_loop None k bs dp magic).
+Proof.
+  induction k as [|k IH]; intros bs dp magic; cbn [attrs_loop]; [apply refines_refl|].
+  apply refines_bind; [apply refines_refl|]. intros [key r]. destruct (key =? 1).
+  - apply refines_bind; [apply ce_bytes_refines|]. intros [b r']. apply IH.
+  - destruct (key =? 2); [|apply refines_refl].
+    apply refines_bind; [apply ce_bytes_refines|]. intros [b r'].
+    apply refines_bind; [apply refines_refl|]. intros [n ?]. destruct (_ <? _); [apply refines_refl|apply IH].
+Qed.
+
+Lemma attrs_dec_refines l bs : refines (attrs_dec (Some l) bs) (attrs_dec None bs).
+Proof.
+  unfold attrs_dec. apply refines_bind; [apply refines_refl|]. intros [[n|] r]; [|apply refines_refl].
+  apply refines_bind; [apply attrs_loop_refines|]. intros [[dp magic] r']. apply refines_refl.
+Qed.
+
+Lemma ext_addr_dec_refines l legacy bs : refines (ext_addr_dec (Some l) legacy bs) (ext_addr_dec None legacy bs).
+Proof.
+  unfold ext_addr_dec. apply refines_bind; [apply raw_with_crc32_refines|]. intros [inner rest].
+  apply refines_bind; [apply refines_refl|]. intros [len i1]. destruct len as [n|]; [|apply refines_refl].
+  destruct n as [|p]; [apply refines_refl|]. destruct p as [[p|p|]|p|]; try apply refines_refl.
+  apply refines_bind; [apply ce_bytes_refines|]. intros [ab i2]. destruct (negb _); [apply refines_refl|].
+  apply refines_bind; [apply attrs_dec_refines|]. intros [[dp magic] i3]. apply refines_refl.
+Qed.
+
+Lemma byron_from_bytes_refines l legacy bs : refines (byron_from_bytes (Some l) legacy bs) (byron_from_bytes None legacy bs).
+Proof. unfold byron_from_bytes. apply refines_bind; [apply ext_addr_dec_refines|]. intros [ea rest]. apply refines_refl. Qed.
+
+Lemma addr_from_bytes_refines l legacy ign data :
+  refines (addr_from_bytes (Some l) legacy ign data) (addr_from_bytes None legacy ign data).
+Proof.
+  unfold addr_from_bytes. apply refines_bind; [apply refines_refl|]. intros _.
+  apply refines_bind; [apply refines_refl|]. intros h.
+  destruct (h / 16 <? 4); [apply refines_refl|]. destruct (h / 16 <? 6); [apply refines_refl|].
+  destruct (h / 16 <? 8); [apply refines_refl|]. destruct (h / 16 =? 8); [|apply refines_refl].
+  apply refines_bind; [apply byron_from_bytes_refines|]. intros ea. apply refines_refl.
+Qed.
+
+Lemma addr_deserialize_refines l legacy bs : refines (addr_deserialize (Some l) legacy bs) (addr_deserialize None legacy bs).
+Proof.
+  unfold addr_deserialize. apply refines_bind; [apply ce_bytes_refines|]. intros [b r].
+  apply refines_bind; [|intros a; apply refines_refl].
+  unfold addr_unsafe. destruct (addr_from_bytes_refines l legacy true b) as [H|H]; rewrite H; [apply refines_refl|right; reflexivity].
+Qed.
+
+Lemma third_element_refines l bs : refines (third_element (Some l) false bs) (third_element None false bs).
+Proof.
+  unfold third_element. destruct bs as [|b0 t]; [apply refines_refl|]. destruct (_ =? _); [|apply refines_refl].
+  apply refines_bind; [apply ce_bytes_refines|]. intros [b r3]. apply refines_refl.
+Qed.
+
+Lemma legacy_output_refines {V} (dv : bytes -> result (V * bytes)) l bs :
+  refines (legacy_output (Some l) dv false bs) (legacy_output None dv false bs).
+Proof.
+  unfold legacy_output. apply refines_bind; [apply refines_refl|]. intros [len r0].
+  apply refines_bind; [apply addr_deserialize_refines|]. intros [a r1].
+  apply refines_bind; [apply refines_refl|]. intros [v r2].
+  apply refines_bind; [apply third_element_refines|]. intros [h r3]. apply refines_refl.
+Qed.
+
+Lemma read_bounded_bytes_refines l bs : refines (read_bounded_bytes (Some l) bs) (read_bounded_bytes None bs).
+Proof.
+  unfold read_bounded_bytes. destruct bs as [|b0 t]; [apply refines_refl|]. destruct (negb _); [apply refines_refl|].
+  destruct (decode_head (b0 :: t)) as [[[m [n|]] r]|]; try apply refines_refl.
+  apply refines_bind; [apply ce_bytes_refines|]. intros [b r']. apply refines_refl.
+Qed.
+
+(* the current code's models with the REAL allocator: whatever is not a Panic is the outcome of the total model *)
+Theorem real_alloc_only_adds_panics :
+  (forall bs, refines (byron_from_bytes real_alloc false bs) (byron_from_bytes None false bs)) /\
+  (forall ign bs, refines (addr_from_bytes real_alloc false ign bs) (addr_from_bytes None false ign bs)) /\
+  (forall bs, refines (third_element real_alloc false bs) (third_element None false bs)) /\
+  (forall V (dv : bytes -> result (V * bytes)) bs, refines (legacy_output real_alloc dv false bs) (legacy_output None dv false bs)) /\
+  (forall bs, refines (read_bounded_bytes real_alloc bs) (read_bounded_bytes None bs)).
+Proof.
+  unfold real_alloc. repeat split; intros.
+  - apply byron_from_bytes_refines.
+  - apply addr_from_bytes_refines.
+  - apply third_element_refines.
+  - apply legacy_output_refines.
+  - apply read_bounded_bytes_refines.
+Qed.
